@@ -24,7 +24,8 @@ TRUSTED = ["hand-written models Model/Population.lean of _get_idx / LazyLoadingT
            "(tied by the c19.lazy and c19.chain correspondence: returned file and read log compared exactly for every operation script)"]
 ASSUMPTIONS = ["os.walk order (file order is whatever find_swcs returns; the suites compare against that list)", "slice.indices (CPython)",
                "ProcessPoolExecutor.map / tqdm's process_map preserve order (observed on process pools in the sandbox, with jobs of unequal duration)",
-               "reads are observed by wrapping Tree.from_swc from the harness"]
+               "reads are observed by wrapping Tree.from_swc from the harness (reads made inside the worker processes of Population.map are not observed)",
+               "a tree file of a directory = a regular file below it whose name ends with the extension asked for (the c19.layout suite writes no other kind of entry)"]
 
 
 def root_x(t):                      # top-level so that it can be pickled for Population.map
@@ -588,14 +589,450 @@ class MapSuite(Suite):
         return len(case["delays"]) >= 2
 
 
-SUITES = [LazySuite(), ChainSuite(), MapSuite()]
+
+# ----------------------------------------------------------------------------- directory layouts with unusual (but legitimate) names
+
+_LETTERS = "abcdefghijklmnopqrstuvwxyz0123456789"
+NAME_KINDS = ["plain", "glob-meta", "hidden", "punct", "dotted"]
+NAME_WHERE = ["root", "above-root", "sub", "file"]
+
+
+def _word(rng, lo=2, hi=5):
+    return "".join(rng.choice(_LETTERS) for _ in range(rng.randint(lo, hi)))
+
+
+def special_name(rng, kind):
+    """one path component of the given kind (no separator, no NUL, never '.' or '..'); the members are drawn, not listed"""
+    w, v = _word(rng), _word(rng)
+    if kind == "glob-meta":          # characters that mean something to a shell / glob / fnmatch / regex, and nothing to a file system
+        return rng.choice([f"{w}[{rng.randint(0, 2999)}]", f"[{w}]", f"[!{w}]", f"{w}[{v}", f"{w}]{v}", f"{w}*", f"*{w}", f"{w}?{v}", f"{{{w},{v}}}",
+                           f"{w}[{w[0]}-{v[0]}]{v}", f"{w}**{v}", f"{w}(1)", f"{w}+{v}", f"^{w}$", f"{w}|{v}", f"{w}\\{v}"])
+    if kind == "hidden":             # names that start with a dot
+        return rng.choice([f".{w}", f".{w}.{v}", f"..{w}", f".{w}-{rng.randint(0, 99)}"])
+    if kind == "punct":              # blanks, quotes, signs, non-ASCII letters
+        c = rng.choice([" ", "  ", "#", "%", "~", "'", '"', ",", "+", "=", "@", "&", "$", ";", "-", "é", "ü", "中", "ñ", "%20", "$HOME", "~user"])
+        return rng.choice([f"{w}{c}{v}", f"{c}{w}", f"{w}{c}"]) if c.strip() else f"{w}{c}{v}"
+    if kind == "dotted":             # further dots; a folder that is named like a tree file
+        return rng.choice([f"{w}.{v}", f"{w}.swc", f"{w}.v{rng.randint(1, 9)}.{rng.randint(0, 9)}", f"{w}..{v}", f"{w}.swc.{v}", f"{w}.SWC"])
+    return w
+
+
+class LayoutSuite(Suite):
+    """`Population.from_swc(root)` / `Populations.from_swc(roots)` over directory layouts whose folder and file names are legitimate but unusual: the population
+    has one tree per tree file under the root, whatever the root, its parents, its sub-folders and its files are called and however the root is spelled."""
+    name = "c19.layout"
+    case_timeout = 60
+    repeat = 6
+    SPELL = ["abs", "rel", "dot-rel", "trailing-sep", "abs"]
+
+    def _root(self, rng, kind, where, k, shared):
+        """layout of one root: path components below the temp dir, tree files (relative names), other files, empty folders"""
+        sp = lambda pos: special_name(rng, kind) if where == pos else _word(rng)
+        comps = [f"{sp('above-root')}", f"{sp('root')}"] if (where == "above-root" or rng.random() < 0.5) else [f"{sp('root')}"]
+        files = list(shared)
+        for _ in range(rng.randint(0, 3)):        # files of this root only
+            depth = rng.choice([0, 0, 1, 2, 4])
+            files.append("/".join([_word(rng) for _ in range(depth)] + [f"{_word(rng)}{k}.swc"]))
+        others = [rng.choice([f"{_word(rng)}.txt", f"{_word(rng)}.swc.bak", f"{_word(rng)}", f"{_word(rng)}/notes.md"]) for _ in range(rng.randint(0, 2))]
+        empty = ["/".join(_word(rng) for _ in range(rng.randint(1, 3))) for _ in range(rng.randint(0, 2))]
+        return {"path": comps, "files": files, "others": others, "empty": empty}
+
+    def cases(self, rng, tier, widen):
+        out = []
+        big = tier == "thorough" or widen
+        combos = [(kind, where) for kind in NAME_KINDS for where in NAME_WHERE]          # every (kind of name, position in the layout) occurs in the quick tier
+        for rep in range(3 if big else 1):
+            for ci, (kind, where) in enumerate(combos):
+                if kind == "plain" and where != "root" and not big:
+                    continue
+                # files present under every root: some at the top, some nested; the special name sits in the position `where`
+                shared = []
+                for j in range(rng.randint(1, 4)):
+                    depth = rng.choice([0, 1, 1, 2, 3])
+                    dirs = [_word(rng) for _ in range(depth)]
+                    if where == "sub" and (j == 0 or rng.random() < 0.4):
+                        dirs.insert(rng.randint(0, len(dirs)), special_name(rng, kind))
+                    base = special_name(rng, kind) if (where == "file" and (j == 0 or rng.random() < 0.4)) else _word(rng)
+                    shared.append("/".join(dirs + [base + ".swc"]))
+                if where == "sub" and kind == "dotted":
+                    shared.append(f"{_word(rng)}.swc/{_word(rng)}.swc")      # a folder that carries the extension, with a tree file in it
+                shared = list(dict.fromkeys(shared))
+                m = rng.choice([1, 2, 2, 3])
+                roots = [self._root(rng, kind, where, k, shared) for k in range(m)]
+                if len({tuple(r["path"]) for r in roots}) < m:
+                    for k, r in enumerate(roots):
+                        r["path"][-1] += f"{k}"
+                out.append({"class": f"{kind}@{where}", "kind": kind, "where": where, "roots": roots, "spell": self.SPELL[(ci + rep) % len(self.SPELL)]})
+        return out
+
+    def run(self, case):
+        from swcgeom.core import Population, Populations
+
+        tmp = tempfile.mkdtemp(prefix="c19L_")
+        cwd = os.getcwd()
+        try:
+            with warnings.catch_warnings():
+                warnings.simplefilter("ignore")
+                absroots, marker_of = [], []
+                for k, r in enumerate(case["roots"]):
+                    d = os.path.join(tmp, *r["path"])
+                    os.makedirs(d, exist_ok=True)
+                    mk = {}
+                    for j, nm in enumerate(r["files"]):
+                        f = os.path.join(d, *nm.split("/"))
+                        os.makedirs(os.path.dirname(f), exist_ok=True)
+                        mk[nm] = 1000 * k + j
+                        with open(f, "w") as fh:
+                            fh.write(f"1 1 {mk[nm]} 0 0 1 -1\n2 3 {mk[nm]} 1 0 1 1\n")
+                    for nm in r["others"]:
+                        f = os.path.join(d, *nm.split("/"))
+                        os.makedirs(os.path.dirname(f), exist_ok=True)
+                        with open(f, "w") as fh:
+                            fh.write("not a tree\n")
+                    for nm in r["empty"]:
+                        os.makedirs(os.path.join(d, *nm.split("/")), exist_ok=True)
+                    absroots.append(d)
+                    marker_of.append(mk)
+                os.chdir(tmp)
+                sp = case["spell"]
+                spelled = [d if sp == "abs" else d + os.sep if sp == "trailing-sep" else ("." + os.sep if sp == "dot-rel" else "") + os.path.relpath(d, tmp) for d in absroots]
+                rel = lambda f, d: os.path.relpath(os.path.abspath(str(f)), d).replace(os.sep, "/")
+                ident = lambda t: int(round(float(t.x()[0])))
+                res = {"written": [sorted(mk) for mk in marker_of], "markers": marker_of, "spelled": spelled, "pops": []}
+                pops = []
+                for d, s_ in zip(absroots, spelled):
+                    with ReadLog() as rl:
+                        pop = Population.from_swc(s_)
+                        built = [rel(f, d) for f in rl.log]
+                        n = len(pop)
+                        pr = {"len": n, "listed": [rel(f, d) for f in pop.trees.swcs], "reads_built": built}
+                        pr["gets"] = [ident(pop[i]) for i in range(n)]
+                        pr["gets_neg"] = [ident(pop[i - n]) for i in range(n)]
+                        pr["src"] = [rel(pop[i].source, d) for i in range(n)]
+                        pr["iter"] = [ident(t) for t in pop]
+                        pr["reads"] = [rel(f, d) for f in rl.log]
+                    res["pops"].append(pr)
+                    pops.append(pop)
+                pp = Populations.from_swc(spelled)
+                res["rows_len"] = len(pp)
+                res["rows"] = [[rel(t.source, d) for t, d in zip(pp[i], absroots)] for i in range(len(pp))]
+                res["row_markers"] = [[ident(t) for t in pp[i]] for i in range(len(pp))]
+                ch = Populations(pops).to_population()
+                res["chain_len"] = len(ch)
+                res["chain_iter"] = [ident(t) for t in ch]
+            return res
+        finally:
+            os.chdir(cwd)
+            shutil.rmtree(tmp, ignore_errors=True)
+
+    def oracle(self, case, res):
+        if not isinstance(res, dict):
+            return [("malformed-output", f"run() returned {type(res).__name__}")]
+        if "exc" in res:
+            return [("population-raises", f"{res['exc']}: {res.get('msg')} (directory layout {case['class']}, roots {[r['path'] for r in case['roots']]}, "
+                                          f"files {[r['files'] for r in case['roots']]}, root spelled {case['spell']})")]
+        try:
+            return self._oracle(case, res)[:3]
+        except Exception as e:  # noqa: BLE001 - a malformed output is a finding, never a crash of the check
+            return [("malformed-output", f"{type(e).__name__}: {e} while judging {str(res)[:300]}")]
+
+    def _oracle(self, case, res):
+        out = []
+        what = f"layout {case['class']}, root spelled {case['spell']}"
+        orders = []
+        for k, (r, pr) in enumerate(zip(case["roots"], res["pops"])):
+            where = f"root {'/'.join(r['path'])!r}"
+            written, mk = sorted(r["files"]), res["markers"][k]
+            listed = pr["listed"]
+            # one tree per tree file under the root: the files of the population are the tree files that were written, each once
+            if sorted(listed) != written:
+                missing, extra = [f for f in written if f not in listed], [f for f in listed if f not in written]
+                out.append(("population-files", f"Population.from_swc({res['spelled'][k]!r}) has {len(listed)} files, the directory holds {len(written)} tree files"
+                                                f"{'; not in the population: ' + str(missing) if missing else ''}{'; not in the directory: ' + str(extra) if extra else ''}"
+                                                f"{'; listed more than once' if len(set(listed)) != len(listed) else ''} ({what})"))
+            if pr["len"] != len(listed):
+                out.append(("len", f"len = {pr['len']}, {len(listed)} files listed ({where}, {what})"))
+            want = [mk.get(f) for f in listed]
+            orders.append(want)
+            for route in ("gets", "gets_neg", "iter"):
+                if pr[route] != want:
+                    bad = next((i for i, (a, b) in enumerate(zip(pr[route], want)) if a != b), min(len(pr[route]), len(want)))
+                    out.append(("iter-order" if route == "iter" else "wrong-tree",
+                                f"{'iteration' if route == 'iter' else 'index ' + str(bad if route == 'gets' else bad - len(want))} gives the tree of file "
+                                f"#{pr[route][bad] if bad < len(pr[route]) else None}, the {bad}-th file {listed[bad] if bad < len(listed) else None!r} "
+                                f"is #{want[bad] if bad < len(want) else None} ({where}, {what})"))
+                    break
+            if pr["src"] != listed:
+                out.append(("wrong-tree", f"trees by index come from {pr['src']}, the files are {listed} ({where}, {what})"))
+            if len(set(pr["reads"])) != len(pr["reads"]):
+                dup = sorted({f for f in pr["reads"] if pr["reads"].count(f) > 1})
+                out.append(("read-twice", f"files {dup} were read more than once by construction → every index → every negative index → iteration ({where}, {what})"))
+            if [f for f in pr["reads_built"] if f not in listed[:1]]:
+                out.append(("read-not-requested", f"construction read {pr['reads_built']}, the first file is {listed[:1]} ({where}, {what})"))
+        # rows of same-named files: one row per name present under every root, each row made of that file of every root
+        common = sorted(set.intersection(*[set(r["files"]) for r in case["roots"]]))
+        rows = res["rows"]
+        if res["rows_len"] != len(common) or sorted(r[0] if r else None for r in rows) != common or any(len(set(r)) != 1 for r in rows):
+            out.append(("populations-rows", f"rows of Populations.from_swc({res['spelled']}): {rows}; the files present under every root are {common} ({what})"))
+        elif any(m != [res["markers"][k].get(r[0]) for k in range(len(case["roots"]))] for r, m in zip(rows, res["row_markers"])):
+            out.append(("populations-rows", f"rows {rows} hold the trees of files #{res['row_markers']}, which are not those files of the roots ({what})"))
+        conc = [m for o in orders for m in o]
+        total = sum(len(r["files"]) for r in case["roots"])
+        if res["chain_len"] != total:
+            out.append(("chain-len/to_population", f"chained length {res['chain_len']}, the directories hold {[len(r['files']) for r in case['roots']]} tree files ({what}, "
+                                                   f"roots {[r['path'] for r in case['roots']]})"))
+        elif res["chain_iter"] != conc:
+            out.append(("chain-iter", f"iteration over the chained population {res['chain_iter']} ≠ concatenation {conc} ({what})"))
+        return out
+
+    def nontrivial(self, case, res):
+        return sum(len(r["files"]) for r in case["roots"]) >= 2
+
+
+# ----------------------------------------------------------------------------- populations built with reader options
+
+STD_COLS = ("id", "type", "x", "y", "z", "r", "pid")
+ESWC_EXTRA = ["level", "mode", "timestamp", "teraflyindex", "feature_value"]
+
+
+def fingerprint(t):                 # top-level (picklable); everything a reader option can change about a tree, as plain lists
+    nd = t.ndata
+    return {"id": [int(v) for v in t.id()], "pid": [int(v) for v in t.pid()], "key": [int(round(float(v))) for v in t.x()], "type": [int(v) for v in t.type()],
+            "file": int(round(float(t.y()[0]))), "extra": {k: [float(v) for v in nd[k]] for k in sorted(nd) if k not in STD_COLS},
+            "comments": [str(c) for c in t.comments]}
+
+
+class OptionSuite(Suite):
+    """Populations built with reader options (`Population.from_swc(root, **kwargs)`, `from_eswc`, `Populations.from_swc(roots, **kwargs)`) on files for which the
+    option matters, reached by every route: index, negative index, slice, iteration, `map`, the chained population.  The i-th result of `map(fn)` is `fn` of the
+    i-th tree — the tree that `pop[i]` returns — whatever the options."""
+    name = "c19.options"
+    case_timeout = 90
+    repeat = 3
+    OPTIONS = ["sort_nodes", "extra_cols", "eswc", "fix_roots", "encoding", "default"]
+    ROUTES = ["map-first", "index-first", "iter-first"]
+
+    @staticmethod
+    def _table(rng, opt, marker):
+        """rows [id, type, key, marker, z, r, pid, extra…] of one file; `key` (column x) identifies the node, `marker` (column y) the file"""
+        n = rng.randint(3, 9)
+        pids = gen.parents_sorted(rng, n, rng.choice(["chain", "random", "binary", "caterpillar"]))
+        if opt == "fix_roots":          # a forest: a second (and third) root
+            for j in sorted(rng.sample(range(1, n), rng.randint(1, 2))):
+                pids[j] = -1
+        off = rng.choice([1, 1, 0, 5, 100])
+        rows = [[i + off, 1 if pids[i] == -1 else 3, i, marker, 0, 1, -1 if pids[i] == -1 else pids[i] + off] for i in range(n)]
+        if opt == "sort_nodes":         # children written before their parents, ids in any order
+            ids = rng.sample(range(off, off + 3 * n), n)
+            rows = [[ids[i], r[1], r[2], r[3], r[4], r[5], -1 if pids[i] == -1 else ids[pids[i]]] for i, r in enumerate(rows)]
+            first = rows[0]
+            rest = rows[1:]
+            rng.shuffle(rest)
+            k = rng.randint(1, len(rest))
+            rows = rest[:k] + [first] + rest[k:]
+        ncol = {"extra_cols": rng.randint(1, 3), "eswc": 5}.get(opt, 0)
+        for r in rows:
+            r.extend(rng.randint(0, 40) for _ in range(ncol))
+        return rows
+
+    def cases(self, rng, tier, widen):
+        out = []
+        big = tier == "thorough" or widen
+        for k in range(36 if big else 12):
+            opt = self.OPTIONS[k % len(self.OPTIONS)]       # every option occurs; entry point and route rotate against it
+            entry = "populations" if rng.random() < 0.4 else "population"
+            route = self.ROUTES[(k + k // len(self.OPTIONS)) % len(self.ROUTES)]
+            m = rng.choice([2, 3]) if entry == "populations" else 1
+            n = rng.randint(2, 5)
+            tables = [[self._table(rng, opt, 100 * j + i) for i in range(n)] for j in range(m)]
+            opts, enc = {}, "utf-8"
+            if opt == "sort_nodes":
+                opts = {"sort_nodes": True}
+            elif opt == "extra_cols":
+                width = len(tables[0][0][0]) - 7
+                tables = [[[r[:7 + width] + [0] * (7 + width - len(r)) for r in t] for t in mem] for mem in tables]
+                opts = {"extra_cols": [rng.choice(["level", "w", "score", "label"]) + str(c) for c in range(width)]}
+            elif opt == "fix_roots":
+                opts = {"fix_roots": rng.choice(["somas", "nearest"])}
+            elif opt == "encoding":
+                enc = rng.choice(["utf-16", "utf-16", "latin-1", "utf-8-sig"])
+                opts = {"encoding": rng.choice([enc, "detect"]) if enc.startswith("utf-16") else enc}
+            out.append({"class": f"{opt}/{entry}/{route}", "opt": opt, "entry": entry, "route": route, "opts": opts, "file_encoding": enc, "tables": tables,
+                        "comment": "".join(rng.choice("aeiouéüñçøß") for _ in range(rng.randint(3, 8))),
+                        "workers": rng.choice([1, 2, 2, 3]), "verbose": rng.random() < 0.25, "member": rng.randrange(m),
+                        "slice": [rng.choice([None, rng.randint(-n, n)]), rng.choice([None, rng.randint(-n, n)]), rng.choice([None, 1, 2, -1])]})
+        return out
+
+    def run(self, case):
+        from swcgeom.core import Population, Populations
+
+        tmp = tempfile.mkdtemp(prefix="c19o_")
+        try:
+            with warnings.catch_warnings():
+                warnings.simplefilter("ignore")
+                ext = ".eswc" if case["opt"] == "eswc" else ".swc"
+                roots = []
+                for j, mem in enumerate(case["tables"]):
+                    d = os.path.join(tmp, f"r{j}")
+                    os.makedirs(d)
+                    for i, rows in enumerate(mem):
+                        with open(os.path.join(d, f"t{i:03d}{ext}"), "w", encoding=case["file_encoding"]) as fh:
+                            fh.write(f"# {case['comment']}\n" + "".join(" ".join(str(v) for v in r) + "\n" for r in rows))
+                    roots.append(d)
+                res = {"stages": {}}
+                with ReadLog() as rl:
+                    if case["entry"] == "population":
+                        pop = (Population.from_eswc if ext == ".eswc" else Population.from_swc)(roots[0], **case["opts"])
+                        pp = None
+                    else:
+                        pp = (Populations.from_eswc(roots, **case["opts"]) if ext == ".eswc" else Populations.from_swc(roots, **case["opts"]))
+                        pop = pp.populations[case["member"]]
+                    n = len(pop)
+                    res["len"] = n
+                    res["files"] = [100 * (case["member"] if pp is not None else 0) + int(os.path.splitext(os.path.basename(f))[0][1:]) for f in pop.trees.swcs]
+
+                    def stage(name, f):
+                        try:
+                            res["stages"][name] = f()
+                        except Exception as e:  # noqa: BLE001 - which route raised is part of the result
+                            res["stages"][name] = {"raised": f"{type(e).__name__}: {str(e)[:200]}"}
+
+                    def do_map():
+                        with open(os.devnull, "w") as null, contextlib.redirect_stderr(null):
+                            return list(pop.map(fingerprint, max_worker=case["workers"], verbose=case["verbose"]))
+
+                    def do_slice():
+                        sl = pop[slice(*case["slice"])]
+                        return {"len": len(sl), "fps": [fingerprint(sl[i]) for i in range(len(sl))]}
+
+                    routes = {"map": do_map, "index": lambda: [fingerprint(pop[i]) for i in range(n)], "iter": lambda: [fingerprint(t) for t in pop]}
+                    first = case["route"].split("-")[0]
+                    for name in [first] + [r for r in ("index", "iter", "map") if r != first]:
+                        stage(name, routes[name])
+                    stage("neg", lambda: [fingerprint(pop[i - n]) for i in range(n)])
+                    stage("slice", do_slice)
+                    if pp is not None:
+                        def do_chain():
+                            ch = pp.to_population()
+                            with open(os.devnull, "w") as null, contextlib.redirect_stderr(null):
+                                return {"len": len(ch), "map": list(ch.map(fingerprint, max_worker=case["workers"])), "iter": [fingerprint(t) for t in ch]}
+                        stage("chain", do_chain)
+                    res["reads"] = [os.path.relpath(f, tmp).replace(os.sep, "/") for f in rl.log]
+            return res
+        finally:
+            shutil.rmtree(tmp, ignore_errors=True)
+
+    def oracle(self, case, res):
+        if not isinstance(res, dict):
+            return [("malformed-output", f"run() returned {type(res).__name__}")]
+        how = f"{'Population' if case['entry'] == 'population' else 'Populations'}.{'from_eswc' if case['opt'] == 'eswc' else 'from_swc'}(…, **{case['opts']})"
+        if "exc" in res:
+            return [("population-raises", f"{how}: {res['exc']}: {res.get('msg')}")]
+        try:
+            return self._oracle(case, res, how)[:3]
+        except Exception as e:  # noqa: BLE001
+            return [("malformed-output", f"{type(e).__name__}: {e} while judging {str(res)[:300]}")]
+
+    @staticmethod
+    def _edges(fp):
+        key = fp["key"]
+        return sorted((key[i], key[p]) for i, p in zip(fp["id"], fp["pid"]) if p != -1) if fp["id"] == list(range(len(key))) else None
+
+    def _oracle(self, case, res, how):
+        out = []
+        st = res["stages"]
+        mem = case["tables"][case["member"] if case["entry"] == "populations" else 0]
+        n = len(mem)
+        opts = f"max_worker={case['workers']}, verbose={case['verbose']}"
+        for name in ("index", "iter", "neg", "slice", "map", "chain"):
+            r = st.get(name)
+            if isinstance(r, dict) and "raised" in r:
+                out.append(("map-raises" if name == "map" else "population-raises",
+                            f"{how}: {'map(' + opts + ')' if name == 'map' else name} raised {r['raised']} (route order {case['route']})"))
+        if res["len"] != n or sorted(res["files"]) != [100 * (case["member"] if case["entry"] == "populations" else 0) + i for i in range(n)]:
+            out.append(("len", f"{how}: {res['len']} trees (files #{res['files']}), the directory holds {n}"))
+            return out
+        idx = st.get("index")
+        ok = lambda r: isinstance(r, list)
+        if ok(idx):
+            # index i is the tree of the i-th file, read the way the population was asked to read its files
+            for i, fp in enumerate(idx):
+                rows = mem[res["files"][i] % 100]
+                if fp["file"] != res["files"][i] or sorted(fp["key"]) != sorted(r[2] for r in rows):
+                    out.append(("wrong-tree", f"{how}: index {i} returned the tree of file #{fp['file']} with nodes {fp['key']}, the {i}-th file is #{res['files'][i]}")); break
+                byid = {r[0]: r for r in rows}
+                wanted = sorted((r[2], byid[r[6]][2]) for r in rows if r[6] != -1)
+                got = self._edges(fp)
+                bad = None
+                if got is None or not set(wanted) <= set(got) or (case["opt"] != "fix_roots" and got != wanted):
+                    bad = f"parent links {got} (node keys), the file has {wanted}"
+                elif case["opt"] == "sort_nodes" and any(p >= j for j, p in enumerate(fp["pid"])):
+                    bad = f"parents {fp['pid']}: sort_nodes=True was asked for, a parent does not precede its child"
+                elif case["opt"] == "fix_roots" and fp["pid"].count(-1) != 1:
+                    bad = f"parents {fp['pid']}: fix_roots={case['opts']['fix_roots']!r} was asked for, {fp['pid'].count(-1)} roots remain"
+                elif case["opt"] in ("extra_cols", "eswc"):
+                    cols = case["opts"].get("extra_cols", []) + (ESWC_EXTRA if case["opt"] == "eswc" else [])
+                    bykey = {r[2]: r for r in rows}
+                    want = {c: [float(bykey[k][7 + ci]) for k in fp["key"]] for ci, c in enumerate(cols)}
+                    if fp["extra"] != want:
+                        bad = f"extra columns {fp['extra']}, the file has {want}"
+                elif case["opt"] == "encoding" and not any(case["comment"] in c for c in fp["comments"]):
+                    bad = f"comments {fp['comments']}, the file ({case['file_encoding']}) has {case['comment']!r}"
+                if bad:
+                    out.append(("wrong-tree/reader-options", f"{how}: index {i} (file #{res['files'][i]}): {bad}")); break
+            for name, key in (("iter", "iter-order"), ("neg", "wrong-tree")):
+                if ok(st.get(name)) and st[name] != idx:
+                    j = next((i for i, (a, b) in enumerate(zip(st[name], idx)) if a != b), min(len(st[name]), n))
+                    out.append((key, f"{how}: {'iteration' if name == 'iter' else 'negative indices'} give at position {j} "
+                                     f"{st[name][j] if j < len(st[name]) else None}, index {j} gives {idx[j] if j < n else None}"))
+            sl = st.get("slice")
+            if isinstance(sl, dict) and "fps" in sl:
+                want = [idx[i] for i in range(*slice(*case["slice"]).indices(n))]
+                if sl["len"] != len(want):
+                    out.append(("slice-len", f"{how}: slice{tuple(case['slice'])} has length {sl['len']}, expected {len(want)}"))
+                elif sl["fps"] != want:
+                    out.append(("slice-wrong-tree", f"{how}: slice{tuple(case['slice'])} returned files {[f.get('file') for f in sl['fps']]}, expected {[f['file'] for f in want]} as the population returns them"))
+            mp = st.get("map")
+            if ok(mp):
+                # one result per tree, in order: the i-th result is fn of the i-th tree
+                if len(mp) != n:
+                    out.append(("map-len", f"{how}: map({opts}) returned {len(mp)} results for {n} trees"))
+                elif mp != idx:
+                    j = next(i for i, (a, b) in enumerate(zip(mp, idx)) if a != b)
+                    diff = sorted(k for k in idx[j] if not isinstance(mp[j], dict) or mp[j].get(k) != idx[j][k])
+                    key = "map-order" if isinstance(mp[j], dict) and mp[j].get("file") != idx[j]["file"] else "map-result"
+                    out.append((key, f"{how}: result {j} of map(fn, {opts}) is not fn(population[{j}]) (route order {case['route']}): they differ in {diff}: "
+                                     f"map gives {({k: mp[j].get(k) for k in diff} if isinstance(mp[j], dict) else mp[j])}, fn(population[{j}]) = {({k: idx[j][k] for k in diff})}"))
+            ch = st.get("chain")
+            if isinstance(ch, dict) and "map" in ch:
+                total = sum(len(m_) for m_ in case["tables"])
+                if ch["len"] != total or len(ch["map"]) != total or len(ch["iter"]) != total:
+                    out.append(("chain-len/to_population", f"{how}: chained length {ch['len']}, {len(ch['map'])} map results, {len(ch['iter'])} trees iterated; members have {total} files"))
+                elif ch["map"] != ch["iter"]:
+                    out.append(("map-result", f"{how}: map over the chained population is not fn of its trees in order: files {[f.get('file') for f in ch['map']]} vs {[f['file'] for f in ch['iter']]}"))
+                else:
+                    at = sum(len(m_) for m_ in case["tables"][:case["member"]])
+                    if ch["iter"][at:at + n] != idx:
+                        out.append(("chain-index/to_population", f"{how}: elements {at}…{at + n - 1} of the chained population are not the trees of member {case['member']}"))
+        reads = res.get("reads", [])
+        dups = sorted({f for f in reads if reads.count(f) > 1})
+        if dups:
+            out.append(("read-twice", f"{how}: files {dups} were read more than once (routes: {case['route']}, then the others, slice{tuple(case['slice'])}"
+                                      f"{', chained population' if 'chain' in st else ''})"))
+        return out
+
+    def nontrivial(self, case, res):
+        return case["opt"] != "default"
+
+
+SUITES = [LazySuite(), ChainSuite(), MapSuite(), LayoutSuite(), OptionSuite()]
 TECHNIQUE = ("Lean 4 theorems; _get_idx, LazyLoadingTrees.load/__getitem__/__len__, ChainTrees.__init__/__len__/__getitem__ and NestTrees.__getitem__ are TRANSLATED from "
              "population.py on every run (harness/translate_algo.py → Gen/AlgoPopulation.lean, file reads as a state-passing callback) and proved to compute what the models compute "
              "(RefinePop.*, C19.generated_chain_getitem, C19.generated_load_at_most_once: every history of index requests); the models: the lazy cache as a state machine (every operation history reads each file at most once and only files that were requested or the "
              "construction probe of file 0; index arithmetic incl. negative indices), the binary search of ChainTrees (invariant: returns the member and offset of "
              "the k-th element of the concatenation, empty members allowed; total length) + differential correspondence on operation scripts over real "
              "directories with reads observed (also directories of hundreds of files revisited after a full pass, several populations alive and used alternately, "
-             "chained views over large members) + Population.map under every option with jobs of unequal duration + direct oracle")
+             "chained views over large members) + Population.map under every option with jobs of unequal duration + directory layouts with unusual names (glob / regex metacharacters, dot-names, blanks and non-ASCII, extra dots; in the root, above it, in sub-folders, in file names; roots spelled absolute / relative / with a trailing separator) judged against the files written + populations built with reader options (sort_nodes, extra_cols, from_eswc, fix_roots, encoding) reached by index, slice, iteration, map and the chained population + direct oracle")
 LEVEL_TEXT = ("Kernel-checked for every history of get / load / iterate / len operations: a file is read only when its slot is empty, so at most once, and only "
               "when requested (plus slot 0 at Population construction); get(k) returns file k (k+n for negative k) and raises outside [-n, n). Kernel-checked for "
               "every list of member lengths (zeros allowed): chained length = sum, and chain[k] is element k of the concatenation.")
